@@ -740,6 +740,63 @@ Section SerdeProof.
       apply Hc in H1. apply Hc in H2. tauto.
   Qed.
 
+  (* "whose nodes and edges all come from the document", for rebuild / deserialize themselves (not for the helpers):
+     every node of the result is a (key, value) pair of the document's node list, every adjacency entry of the result
+     is an edge triple of the document's edge list between the nodes bound to its two keys *)
+  Lemma rebuild_nodes_from_doc l : forall h g u kv,
+    nth_error (nodes (fst (rebuild_nodes keqb h g l))) u = Some kv -> nth_error (nodes h) u = Some kv \/ In kv l.
+  Proof.
+    induction l as [|[k v] r IH]; intros h g u kv Hn; cbn [rebuild_nodes] in Hn.
+    - left. exact Hn.
+    - destruct (g_contains keqb g k).
+      + destruct (IH h g u kv Hn) as [H|H]; [left; exact H|right; right; exact H].
+      + destruct (IH _ _ u kv Hn) as [H|H]; [|right; right; exact H].
+        unfold alloc in H. cbn [nodes] in H.
+        destruct (Nat.lt_ge_cases u (length (nodes h))) as [Hlt|Hge].
+        * rewrite nth_error_app1 in H by exact Hlt. left. exact H.
+        * rewrite nth_error_app2 in H by exact Hge. destruct (u - length (nodes h)) as [|n]; cbn in H.
+          -- right. left. congruence.
+          -- destruct n; discriminate H.
+  Qed.
+
+  Theorem rebuild_all_from_document : forall ns es h' g', rebuild keqb ns es = DeOk h' g' ->
+    (forall u kv, nth_error (nodes h') u = Some kv -> In kv ns) /\
+    (forall u v e, In (v, e) (outs h' u) -> exists s t, In (s, t, e) es /\ g_get keqb g' s = Some u /\ g_get keqb g' t = Some v) /\
+    (forall u v e, In (u, e) (ins h' v) -> exists s t, In (s, t, e) es /\ g_get keqb g' s = Some u /\ g_get keqb g' t = Some v).
+  Proof.
+    intros ns es h' g'. rewrite rebuild_unfold.
+    destruct (rebuild_nodes_start ns) as (HG & HI & Hc).
+    pose proof (rebuild_edges_spec_ es HG HI) as HE. intros Hr. rewrite Hr in HE.
+    destruct HE as (-> & _ & Hn & _ & Ho & Hi).
+    destruct (rebuild_nodes_mono ns (@empty_heap K V E) []) as (_ & _ & H3 & _).
+    split; [|split].
+    - intros u kv Hu. rewrite Hn in Hu. destruct (rebuild_nodes_from_doc ns _ _ _ Hu) as [H|H]; [|exact H].
+      cbn in H. destruct u; discriminate H.
+    - intros u v e Hin. rewrite Ho in Hin. destruct (H3 u) as [Hou _]. rewrite Hou in Hin. cbn [empty_heap outs app] in Hin.
+      apply in_flat_map in Hin. destruct Hin as ([[s t] e'] & Hes & Hx). unfold out_step in Hx.
+      destruct (g_get keqb (snd (rebuild_nodes keqb empty_heap [] ns)) s) as [a|] eqn:Ha; [|destruct Hx].
+      destruct (g_get keqb (snd (rebuild_nodes keqb empty_heap [] ns)) t) as [b|] eqn:Hb; [|destruct Hx].
+      destruct (Nat.eqb_spec a u) as [->|]; [|destruct Hx]. destruct Hx as [Hx|[]]. inversion Hx; subst.
+      exists s, t. split; [exact Hes|]. split; assumption.
+    - intros u v e Hin. rewrite Hi in Hin. destruct (H3 v) as [_ Hiv]. rewrite Hiv in Hin. cbn [empty_heap ins app] in Hin.
+      apply in_flat_map in Hin. destruct Hin as ([[s t] e'] & Hes & Hx). unfold in_step in Hx.
+      destruct (g_get keqb (snd (rebuild_nodes keqb empty_heap [] ns)) s) as [a|] eqn:Ha; [|destruct Hx].
+      destruct (g_get keqb (snd (rebuild_nodes keqb empty_heap [] ns)) t) as [b|] eqn:Hb; [|destruct Hx].
+      destruct (Nat.eqb_spec b v) as [->|]; [|destruct Hx]. destruct Hx as [Hx|[]]. inversion Hx; subst.
+      exists s, t. split; [exact Hes|]. split; assumption.
+  Qed.
+
+  Theorem deserialize_all_from_document : forall dk dv de doc h g,
+    deserialize keqb dk dv de doc = DOk h g ->
+    exists ns es, decode_doc dk dv de doc = Some (ns, es) /\
+      (forall u kv, nth_error (nodes h) u = Some kv -> In kv ns) /\
+      (forall u v e, In (v, e) (outs h u) -> exists s t, In (s, t, e) es /\ g_get keqb g s = Some u /\ g_get keqb g t = Some v).
+  Proof.
+    intros dk dv de doc h g. unfold deserialize. destruct (decode_doc dk dv de doc) as [[n e]|]; [|discriminate].
+    destruct (rebuild keqb n e) as [h2 g2|k] eqn:Hr; [|discriminate]. intros Hd. inversion Hd; subst.
+    exists n, e. split; [reflexivity|]. destruct (rebuild_all_from_document _ _ Hr) as (H1 & H2 & _). split; assumption.
+  Qed.
+
   Theorem deserialize_total : forall dk dv de doc,
     (deserialize keqb dk dv de doc = DErr K V E) \/
     (exists h g, deserialize keqb dk dv de doc = DOk h g /\ Inv h /\ GraphOK h g).
